@@ -90,11 +90,14 @@ def appScope (cs : List (Cav B)) : Option (List UInt64) :=
   -- do we allow id=0 (aka id=*)?
   if possible.contains 0 then none else some possible
 
-/-- `flyio.ClusterScope` (no wildcard case) -/
+/-- `flyio.ClusterScope` (after the repair of F11 it has `AppScope`'s wildcard case) -/
 def clusterScope (cs : List (Cav B)) : Option (List Bytes) :=
   let cavs := getCaveats isClusters cs
   if cavs.isEmpty then none else
-  some ((sortDedup Bytes.lt (clusterKeys cavs)).filter fun id => clears cavs (clusterReq id) 0 0)
+  -- gather any cluster id mentioned in any caveat; remove the ids that do not validate
+  let possible := (sortDedup Bytes.lt (clusterKeys cavs)).filter fun id => clears cavs (clusterReq id) 0 0
+  -- do we allow id="" (aka id=*)?
+  if possible.contains [] then none else some possible
 
 /-- `flyio.AppsAllowing`; here the whole caveat set is validated, validity windows included, so
 the wall clock `(sec, nsec)` read by `flyio.Access.Now()` is an input.  On error the Go function
